@@ -2,16 +2,16 @@
 """developer helper: run one unit against a tree and print the obligation table"""
 import sys, json, os
 sys.path.insert(0, os.path.dirname(os.path.abspath(__file__)))
-import verus_be
+import verus_be, kanix_be
 name = sys.argv[1]
 pos = [a for a in sys.argv[2:] if not a.startswith("-")]
 root = pos[0] if pos else "/repo"
 d = "/verif/contracts/" + name
 u = json.load(open(d + "/unit.json")); u["dir"] = d; u["name"] = name
-r = verus_be.run_unit(u, root, "/var/tmp/vp/w")
+r = verus_be.run_unit(u, root, "/var/tmp/vp/w") if u["backend"] == "verus" else kanix_be.run_unit(u, root, "/var/tmp/vp/w", "thorough" if "-t" in sys.argv else "quick")
 print(r["status"], r["reason"]); print(r.get("detail", "")[:6000])
 for o in r["obligations"]:
     if o["status"] != "discharged" or "-v" in sys.argv:
-        print(o["status"], o["name"], o.get("reasons"), o["solver_s"])
+        print(o["status"], o["name"], o.get("reasons"), o["solver_s"], o.get("counterexample"))
         if "-d" in sys.argv: print(o.get("detail", ""))
 print(len(r["obligations"]), "obligations;", sum(o["status"] == "discharged" for o in r["obligations"]), "discharged;", r.get("canaries"), "%.1fs" % r["wall_s"])
